@@ -1,7 +1,7 @@
 """C14 - IAPWS-97 water properties are thermodynamically consistent over their range."""
 import math
 from hypothesis import strategies as st
-from vlib.core import Search, HarnessError
+from vlib.core import Search, HarnessError, Refused
 from refs import if97_ref as ref
 
 ID = 'C14'
@@ -508,7 +508,14 @@ def case_r12(R, I, kind, t, p):
     # (b) single-potential identity
     if kind == 'r1': hp, ht = HP1, HT1
     else: hp, ht = HP2REL * p, HT2
-    if p + hp > PMAX or p - hp <= 0 or (kind == 'r1' and t + ht > T13_C) or t + ht > 1000.0:
+    # every point of the difference stencil must itself lie inside the region whose routine is evaluated (the
+    # identity is only claimed there, and a routine may rightly give no value outside)
+    inside = p + hp <= PMAX and p - hp > 0 and t - ht >= 0.01
+    if kind == 'r1':
+        inside = inside and t + ht <= T13_C and p - hp > psat_c(t + ht)
+    else:
+        inside = inside and t + ht <= 800.0 and p + hp <= min(pmax2(t - ht), pmax2(t + ht), pmax2(t))
+    if not inside:
         R.label('fd-skipped'); return
     try:
         with R.lib('fd:' + name):
@@ -520,7 +527,7 @@ def case_r12(R, I, kind, t, p):
             '(dh/dp)_T differs from v - T (dv/dT)_p by %.3g of |v|+T|dv/dT| %s' % (res, at))
 
 
-class NoValue(Exception):
+class NoValue(Refused):        # (Refused passes through R.lib untouched)
     """a routine returned no value at a finite-difference neighbour of a state where it did"""
 
 
